@@ -5,6 +5,7 @@ package main
 
 import (
 	"fmt"
+	"go/constant"
 	"go/token"
 	"go/types"
 	"sort"
@@ -335,6 +336,62 @@ func ruleOverride(c *Ctx) {
 			}
 		})
 		c.check(usesSentinel, "cmd."+g+"|sentinel", c.pos(gf.Pos()), fname(gf), "empty/zero flag value -> `not given` sentinel", "cmd."+g+" no longer returns the ErrOK sentinel for an unset flag")
+		// ... and for nothing else: folded with the flag's value bound to probes, `not given` comes back for the zero value
+		// only (a value that merely equals some default is a value the user gave)
+		var sentinelID int
+		if sp := c.ssapkg("errorx"); sp != nil {
+			if eg := sp.Var("ErrOK"); eg != nil {
+				sentinelID = c.globalTable(eg).errID
+			}
+		}
+		if sentinelID != 0 {
+			// the flag's value: a string probe for GetString, a number probe for GetUint, whichever the getter (or a
+			// helper it reads the flag through) asks for; probe 0 is the zero value
+			strs := []string{"", "C", "Am", "F#m", "mf", "4/4", "3/4", "100", "0", " "}
+			nums := []int64{0, 1, 60, 100, 120, 255, 256, 65536, 7, 3}
+			type probe struct{ s, n fval }
+			var probes []probe
+			for i := range strs {
+				probes = append(probes, probe{fval{k: constant.MakeString(strs[i]), t: types.Typ[types.String]}, fval{k: constant.MakeInt64(nums[i]), t: types.Typ[types.Uint]}})
+			}
+			c.site(1)
+			problem := ""
+			for i, pv := range probes {
+				fd := c.newFolder()
+				used := pv.s
+				fd.lib = func(fn *ssa.Function, args []fval) (fval, bool) {
+					switch fname(fn) {
+					case "github.com/spf13/pflag.FlagSet.GetString":
+						used = pv.s
+						return fval{tuple: []fval{pv.s, {isNil: true}}}, true
+					case "github.com/spf13/pflag.FlagSet.GetUint":
+						used = pv.n
+						return fval{tuple: []fval{pv.n, {isNil: true}}}, true
+					}
+					return top, false
+				}
+				var ret *ssa.Return
+				var retErr fval
+				fd.hook = func(in ssa.Instruction, val func(ssa.Value) fval) bool {
+					if r, ok := in.(*ssa.Return); ok && len(r.Results) == 2 {
+						ret, retErr = r, val(r.Results[1])
+					}
+					return false
+				}
+				fd.foldCall(gf, []fval{top})
+				if ret == nil {
+					continue // does not fold for this probe: nothing is claimed
+				}
+				isSentinel := retErr.nonNil && retErr.errID == sentinelID
+				if i == 0 && !isSentinel && (retErr.isNil || (retErr.nonNil && retErr.errID != 0)) {
+					problem = "the zero value of the flag is not answered with the `not given` sentinel"
+				}
+				if i > 0 && isSentinel {
+					problem = fmt.Sprintf("the value %s is answered with the `not given` sentinel: a flag the user gave is ignored", used.k.ExactString())
+				}
+			}
+			c.check(problem == "", "cmd."+g+"|sentinel-only-for-zero", c.pos(gf.Pos()), fname(gf), "`not given` for the zero value only (folded on probe values)", "cmd."+g+": "+problem)
+		}
 	}
 }
 
